@@ -232,4 +232,73 @@ example :
             (V2.parse out).toOption.map (fun h' => h'.tlvs == [.ok ⟨4, [42]⟩, .ok ⟨5, [1, 2]⟩] && h'.addresses == h.addresses))) =
       some (some (some true)) := by decide +kernel
 
+/-! ### Further one-step corollaries (audit 3, C13 (a)) -/
+
+/-- **C13 (decoded addresses, section as a byte slice).** `rebuild_from_addresses`
+with the TLV section handed over as a plain byte slice. -/
+theorem rebuild_from_addresses_slice {x : B} {h : Header} (hp : V2.parse x = .ok h)
+    (hfam : h.addressFamily ≠ .unspec) :
+    (Builder.withAddresses (vcByte h.version h.command) h.protocol h.addresses).run
+      [.writePayload (.slice h.tlvBytes)] = some h.header := by
+  obtain ⟨rest, hle, he⟩ := C14.accepted_is_encoding hp
+  obtain ⟨-, -, -, h4⟩ := views_of_encode h.command h.protocol h.addresses rest
+  rw [← he] at h4
+  have hfam' : h.addresses.family ≠ .unspec := hfam
+  rw [if_neg hfam'] at h4
+  have hhdr : h.header = Spec.V2.encode h.command h.protocol h.addresses rest := by
+    conv => lhs; rw [he]
+    rfl
+  have hv : h.version = .two := by cases h.version; rfl
+  rw [hv, vc_eq_spec, hhdr, h4]
+  refine rebuild_core h.command h.protocol h.addresses rest hle ?_ _ rest ?_ rfl rfl
+  · have := shape_withAddresses (Spec.V2.versionCommand h.command) h.protocol h.addresses
+    rwa [afpByte_eq_spec] at this
+  · have h1 : rest.length ≤ 65535 := by omega
+    simp [opPayloads, encAll, enc, h1]
+
+/-- **C13 (`Builder::new` from the decoded fields).** The control bytes recomputed
+from the decoded version, command, family and transport, the decoded address
+value written as a payload, then the TLV section (as a byte slice, or as a
+`TypeLengthValues`): the original header bytes. -/
+theorem rebuild_new_addresses {x : B} {h : Header} (hp : V2.parse x = .ok h)
+    (hfam : h.addressFamily ≠ .unspec) :
+    (Builder.new (vcByte h.version h.command) (afpByte h.addressFamily h.protocol)).run
+      [.writePayload (.addresses h.addresses), .writePayload (.slice h.tlvBytes)] = some h.header ∧
+    (Builder.new (vcByte h.version h.command) (afpByte h.addressFamily h.protocol)).run
+      [.writePayload (.addresses h.addresses), .writePayload (.tlvSection h.tlvBytes)] = some h.header := by
+  obtain ⟨rest, hle, he⟩ := C14.accepted_is_encoding hp
+  obtain ⟨-, -, -, h4⟩ := views_of_encode h.command h.protocol h.addresses rest
+  rw [← he] at h4
+  have hfam' : h.addresses.family ≠ .unspec := hfam
+  rw [if_neg hfam'] at h4
+  have hhdr : h.header = Spec.V2.encode h.command h.protocol h.addresses rest := by
+    conv => lhs; rw [he]
+    rfl
+  have hv : h.version = .two := by cases h.version; rfl
+  have h1 : rest.length ≤ 65535 := by omega
+  rw [hv, vc_eq_spec, afpByte_eq_spec, hhdr, h4]
+  simp only [Header.addressFamily]
+  constructor
+  · refine rebuild_core h.command h.protocol h.addresses rest hle (shape_new _ _) _
+      (Spec.V2.addrBytes h.addresses ++ rest) ?_ rfl ?_
+    · simp [opPayloads, encAll, enc, h1]
+    · simp [Spec.V2.addrBytes]
+  · refine rebuild_core h.command h.protocol h.addresses rest hle (shape_new _ _) _
+      (Spec.V2.addrBytes h.addresses ++ rest) ?_ rfl ?_
+    · simp [opPayloads, encAll, enc]
+    · simp [Spec.V2.addrBytes]
+
+/-- Non-vacuity: the accepted IPv4 header of the examples above has a specified family and
+rebuilds from the decoded fields through `Builder::new`. -/
+example :
+    (V2.parse [0x0D, 0x0A, 0x0D, 0x0A, 0x00, 0x0D, 0x0A, 0x51, 0x55, 0x49, 0x54, 0x0A,
+               0x21, 0x11, 0x00, 0x10, 127, 0, 0, 1, 192, 168, 1, 1, 0, 80, 1, 187,
+               4, 0, 1, 42]).toOption.map (fun h =>
+        h.addressFamily != .unspec &&
+        (Builder.new (vcByte h.version h.command) (afpByte h.addressFamily h.protocol)).run
+          [.writePayload (.addresses h.addresses), .writePayload (.slice h.tlvBytes)] == some h.header &&
+        (Builder.withAddresses (vcByte h.version h.command) h.protocol h.addresses).run
+          [.writePayload (.slice h.tlvBytes)] == some h.header) =
+      some true := by decide +kernel
+
 end C13
